@@ -1,5 +1,9 @@
 //! Harness: backends, model, engine and one module per property.
 pub mod engine;
+pub mod fsutil;
+pub mod r#gen;
 pub mod membe;
 pub mod model;
 pub mod props;
+pub mod repo;
+pub mod restore;
